@@ -120,6 +120,9 @@ func getMetaLoop(c *Ctx, rule string) *metaLoop {
 	}
 	if nt := statNilTest(c, loop); nt != nil {
 		m.pins[x.KeyAtEntry(nt.Cond)] = false
+		if r := eng.Resolve(nt.Cond); r != nt.Cond {
+			m.pins[x.KeyAtEntry(r)] = false // the test inside a predicate helper
+		}
 	}
 	if k, site := packetTypeTestKey(c, loop, "PACKET_STAT"); site != nil {
 		m.pins[k] = true
@@ -201,7 +204,7 @@ func r19_2(c *Ctx, rule string) {
 	}
 	c.ObUnreachable(rule, base+"/only-in-metadata-mode", m.loop, off, func(in ssa.Instruction) bool { return in == ssa.Instruction(m.alloc) }, "recording a listing entry", "no metadata-only selector was given")
 	// the flag is `r.metadataOnly != nil`, assigned once
-	run := m.loop.Parent()
+	run := c.P.Encloser(m.loop)
 	okFlag := len(mk) > 0 && clean
 	c.R.Check(okFlag, rule, c.name(run)+"/mode-flag", c.P.Pos(run.Pos()), "metadata mode <=> a MetadataOnly selector was given", "the metadata-mode flag is not `r.metadataOnly != nil` (or is reassigned)")
 }
@@ -487,16 +490,40 @@ func r19_7(c *Ctx, rule string) {
 		}
 		k++
 		con := fmt.Sprintf("%s/return#%d", base, k)
-		switch v := eng.Canon(r.Results[0]).(type) {
+		// (a value computed in a helper is n when it is n at every call of the helper)
+		isN := func(v ssa.Value) bool {
+			if v == nil {
+				return false
+			}
+			rs := eng.ResolveAll(v)
+			for _, r := range rs {
+				if !eng.SameValue(r, n) {
+					return false
+				}
+			}
+			return len(rs) > 0
+		}
+		res := eng.Canon(r.Results[0])
+		if rs := eng.ResolveNZ(r.Results[0]); len(rs) == 1 {
+			res = eng.Canon(rs[0])
+		}
+		switch v := res.(type) {
 		case *ssa.MakeSlice:
-			c.R.Check(v.Len == ssa.Value(n), rule, con+"/length", c.pos(r), "make([]byte, n)", "alloc returns a fresh slice whose length is not n")
+			c.R.Check(isN(v.Len), rule, con+"/length", c.pos(r), "make([]byte, n)", "alloc returns a fresh slice whose length is not n")
 		case *ssa.Slice:
+			high := v.High
+			if high == nil {
+				// chunk = chunk[:l+n]; return chunk[l:] - the window ends where the re-slice ends
+				if outer, isS := eng.Canon(v.X).(*ssa.Slice); isS && eng.SliceLow(outer) == nil {
+					high = outer.High
+				}
+			}
 			switch {
 			case eng.SliceLow(v) == nil:
 				_, fresh := v.X.(*ssa.Alloc)
-				c.R.Check(fresh && v.High == ssa.Value(n), rule, con+"/length", c.pos(r), "the first n bytes of a fresh chunk", "alloc returns a prefix of a chunk whose length is not n")
+				c.R.Check(fresh && isN(v.High), rule, con+"/length", c.pos(r), "the first n bytes of a fresh chunk", "alloc returns a prefix of a chunk whose length is not n")
 			default:
-				okLen := eng.IsSumOf(v.High, v.Low, n)
+				okLen := high != nil && eng.IsSumOf(high, v.Low, n)
 				c.R.Check(okLen, rule, con+"/length", c.pos(r), "bytes [l, l+n) of the last chunk", "alloc returns a window of the last chunk that is not [l, l+n)")
 				// l is the chunk's old length
 				lenCall, isLen := v.Low.(*ssa.Call)
@@ -520,6 +547,10 @@ func r19_7(c *Ctx, rule string) {
 							t = iff.Block().Succs[1]
 						}
 						if t == r.Block() || t.Dominates(r.Block()) {
+							guarded = true
+						}
+						// the window may be cut in a helper: then the guard stands before the cut
+						if t.Parent() == v.Parent() && (t == v.Block() || t.Dominates(v.Block())) {
 							guarded = true
 						}
 					}
